@@ -40,6 +40,8 @@ type unit struct {
 	types   map[string]string
 	// closures with a statement body are defunctionalised: the variables they capture must be listed here with their type
 	captures map[string]string
+	// a VALUE receiver that is data (a slice type): every function takes it as its first parameter, named recv
+	recvParam string
 }
 
 var units = map[string]*unit{
@@ -100,6 +102,15 @@ func init() {
 		imports: []string{"CircuitModel.GoLiveCfgPrims"}, open: []string{"CM", "CM.Go", "CM.GoLiveCfg"}, vars: "", monad: "LM",
 		types: map[string]string{"Config": "GoConfig"},
 	}
+	fan := func(name, recv, ns, elem string, funcs []string) {
+		monad := "XM"
+		units[name] = &unit{name: name, file: "metrics.go", recv: recv, funcs: funcs, recvParam: "List " + elem,
+			imports: []string{"CircuitModel.GoFanoutPrims"}, open: []string{"CM", "CM.Go", "CM." + ns}, vars: "", monad: monad, types: consumerTypes}
+	}
+	fan("GoFanRun", "RunMetricsCollection", "GoFanRun", "Coll",
+		[]string{"Success", "ErrConcurrencyLimitReject", "ErrFailure", "ErrShortCircuit", "ErrTimeout", "ErrBadRequest", "ErrInterrupt"})
+	fan("GoFanFb", "FallbackMetricsCollection", "GoFanFb", "FColl", []string{"Success", "ErrConcurrencyLimitReject", "ErrFailure"})
+	fan("GoFanCirc", "MetricsCollection", "GoFanCirc", "MColl", []string{"Closed", "Opened"})
 	units["GoTimedCheck"] = &unit{
 		name: "GoTimedCheck", file: "faststats/timedcheck.go", recv: "TimedCheck",
 		funcs:   []string{"SetSleepDuration", "SetEventCountToAllow", "SleepStart", "resetOpenTimeWithLock", "Check"},
@@ -465,6 +476,9 @@ func (t *tr) call(c *ast.CallExpr) string {
 		case root.Name == t.recvVar && t.recvVar != "":
 			if len(path) == 1 && t.funcs[path[0]] {
 				t.calls[path[0]] = true
+				if t.u.recvParam != "" {
+					return "(← go_" + path[0] + " recv" + t.args(c.Args) + ")"
+				}
 				return "(← go_" + path[0] + t.args(c.Args) + ")"
 			}
 			return "(← recv_" + strings.Join(path, "_") + t.args(c.Args) + ")"
@@ -683,6 +697,9 @@ func (u *unit) translate(fd *ast.FuncDecl, pkgs, funcs map[string]bool) fnOut {
 	}
 	var params []string
 	var prologue []string
+	if u.recvParam != "" {
+		params = append(params, "(recv : "+u.recvParam+")")
+	}
 	asg := assigned(fd.Body)
 	for _, f := range fd.Type.Params.List {
 		ty := t.ltype(f.Type)
